@@ -61,6 +61,13 @@ class _VEq:
         self.lhs, self.rhs = lhs, rhs
 
 
+class _Dot:
+    """a bare dot product dot(u, w): a SCALAR expression, no equation - although VectorDot names its operands .lhs and .rhs"""
+
+    def __init__(self, lhs: _VE, rhs: _VE):
+        self.lhs, self.rhs = lhs, rhs
+
+
 def _addends(t: T) -> list:
     if t.op == "add":
         return _addends(t.args[0]) + _addends(t.args[1])
@@ -120,9 +127,14 @@ def _solve_for_vector(run: Run, mod, f) -> None:
     class R(PyReader):
 
         def hook_attr(self, base, attr, n):
-            if isinstance(base, _VEq) and attr in ("lhs", "rhs"):
+            if isinstance(base, (_VEq, _Dot)) and attr in ("lhs", "rhs"):
                 return getattr(base, attr)
             return NotImplemented
+
+        def has_attr(self, obj, name):
+            if name in ("lhs", "rhs"):
+                return isinstance(obj, (_VEq, _Dot))  # equations - and VectorDot, whose operands carry the same names; sums, multiples and symbols have neither
+            return None
 
         def hook_method(self, base, attr, args, kwargs, n):
             if attr == "coeff" and isinstance(base, T) and args and isinstance(args[0], T):
@@ -148,6 +160,10 @@ def _solve_for_vector(run: Run, mod, f) -> None:
         def hook_binop(self, o, l, r, n):
             if isinstance(l, _VE) and isinstance(r, _VE) and isinstance(o, (ast.Sub, ast.Add)):
                 return _VE(l.terms + [(v, op("neg", c) if isinstance(o, ast.Sub) else c) for v, c in r.terms])
+            def zero_(x):
+                return (isinstance(x, int) and not isinstance(x, bool) and x == 0) or (isinstance(x, T) and x.op == "num" and x.val == 0)
+            if isinstance(l, _VE) and zero_(r) and isinstance(o, (ast.Sub, ast.Add)):
+                return l
             if isinstance(l, _VE) or isinstance(r, _VE):
                 self.fail(n, "arithmetic on the input expression other than lhs - rhs")
             return NotImplemented
@@ -158,13 +174,13 @@ def _solve_for_vector(run: Run, mod, f) -> None:
                 return isinstance(self.ev(n.args[0], env, fns), _VEq)
             if name == "is_vector_expr" and len(n.args) == 1:
                 v = self.ev(n.args[0], env, fns)
-                return isinstance(v, _VE) or (isinstance(v, T) and bool(_terms_of(v)))
+                return isinstance(v, _VE) or (isinstance(v, T) and bool(_terms_of(v)))  # False for scalars, a bare _Dot included
             if name == "into_terms" and len(n.args) == 1:
                 v = self.ev(n.args[0], env, fns)
                 if isinstance(v, T):
                     v = _VE(_terms_of(v))
                 if not isinstance(v, _VE):
-                    raise Raised("ValueError", getattr(n, "lineno", 0))  # _check_vector
+                    raise Raised("ValueError", getattr(n, "lineno", 0))  # _check_vector (a scalar, a bare dot product)
                 return [op("mul", b, a) for a, b in v.terms]
             if name == "split_factor" and len(n.args) == 1:
                 v = self.ev(n.args[0], env, fns)
@@ -279,6 +295,12 @@ def _solve_for_vector(run: Run, mod, f) -> None:
         if not isinstance(res, Raised):
             run.violate("Q1", f"{MOD}:solve_for_vector:type-refusal", f.mod, f.fn,
                         f"a non-vector expression is not refused (got {'raises ' + res.exc if isinstance(res, Raised) else repr(res)[:80]})")
+        # a bare dot product is a scalar too - one whose class happens to name its operands .lhs and .rhs
+        run.ob("Q1", f"bare-dot-product-refused,reduce={reduce_factor}")
+        res = run_case("bare-dot", _Dot(_VE([(var("v0"), num(1))]), _VE([(var("v1"), num(1))])), [], var("v0"), reduce_factor)
+        if not isinstance(res, Raised):
+            run.violate("Q1", f"{MOD}:solve_for_vector:bare-dot-product", f.mod, f.fn,
+                        f"the scalar dot(v0, v1) is not refused but read as the equation v0 = v1 (got {repr(res)[:80]}): VectorDot names its operands lhs and rhs, that makes it no equation")
 
 
 def _q5(run: Run) -> None:
@@ -399,9 +421,14 @@ def _q2(run: Run, mod) -> None:
     class R(PyReader):
 
         def hook_attr(self, base, attr, n):
-            if isinstance(base, tuple) and len(base) == 3 and base[0] == "eq" and attr in ("lhs", "rhs"):
+            if isinstance(base, tuple) and len(base) == 3 and base[0] in ("eq", "dot") and attr in ("lhs", "rhs"):
                 return base[1] if attr == "lhs" else base[2]
             return NotImplemented
+
+        def has_attr(self, obj, name):
+            if name in ("lhs", "rhs"):
+                return isinstance(obj, tuple) and len(obj) == 3 and obj[0] in ("eq", "dot")
+            return None
 
         def is_instance(self, v, names, n):
             if "Eq" in names or "Equality" in names:
@@ -423,7 +450,8 @@ def _q2(run: Run, mod) -> None:
     def zero(x) -> bool:
         return x == 0 or (isinstance(x, T) and x.op == "num" and x.val == 0)
 
-    for label, arg, want_l, want_r in (("equation", ("eq", a, b), a, b), ("expression", e, e, None)):
+    dot_ = ("dot", var("P"), var("Q"))  # a bare dot product: an expression whose class names its operands .lhs / .rhs
+    for label, arg, want_l, want_r in (("equation", ("eq", a, b), a, b), ("expression", e, e, None), ("bare dot product", dot_, dot_, None)):
         run.ob("Q2", f"apply:{label}")
         rd = R(mod.tree, "solvers/__init__.py")
         try:
